@@ -878,7 +878,14 @@ fn run_c18(t: &mut Tape, tier: Tier) -> RunOut {
     }
     let compare = |out: &mut RunOut, how: &str, i: usize, got: &(String, String)| {
         if got.0 != golden[i].0 {
-            out.violate("C18", "same-outcome-on-repetition", format!("{}: corpus[{}] gave {:?}, single-threaded golden outcome is {:?}; request: {}", how, i, got.0, golden[i].0, items[i].wire.describe()));
+            // phases whose schedule the simulator does not control get their own clause: such a
+            // failure is re-found by re-running, not replayed step by step (driver::UNCONTROLLED)
+            let clause = if how.contains("real parallel") {
+                "same-outcome-under-real-parallelism"
+            } else {
+                "same-outcome-on-repetition"
+            };
+            out.violate("C18", clause, format!("{}: corpus[{}] gave {:?}, single-threaded golden outcome is {:?}; request: {}", how, i, got.0, golden[i].0, items[i].wire.describe()));
         } else if got.1 != golden[i].1 {
             // same kind, code, status and message class; only the prose differs (hash order)
             out.probe("message_text_varied_with_hash_seed");
@@ -1025,7 +1032,7 @@ fn run_c18(t: &mut Tape, tier: Tier) -> RunOut {
     } else {
         150
     };
-    if t.chance(fresh_one_in) {
+    if t.chance(fresh_one_in) || std::env::var("VERIF_C18_FORCE_FRESH").is_ok() {
         use std::io::Write;
         use std::process::{Command, Stdio};
         if let Ok(exe) = std::env::current_exe() {
